@@ -255,7 +255,7 @@ async fn fork_history(hrng: &mut Rng, gp: u64, case: usize, summary: &mut Summar
 }
 
 /// deterministic chain with large fees (fee per byte > 0) used as prefix of the scripted cases
-async fn scripted_prefix(gp: u64, pab: u64, issuance: &[(usize, u64)], blocks: usize, seed: u64) -> Sim {
+async fn scripted_prefix_raw(gp: u64, pab: u64, issuance: &[(usize, u64)], blocks: usize, seed: u64, case: usize, summary: &mut Summary, desc: &str) -> Sim {
     let mut rng = Rng::new(seed);
     let mut sim = Sim::new(gp, pab, 4, issuance, 1_000_000).await;
     for i in 0..blocks {
@@ -276,8 +276,15 @@ async fn scripted_prefix(gp: u64, pab: u64, issuance: &[(usize, u64)], blocks: u
         } else {
             None
         };
-        let (_co, sr) = sim.honest_step(ts, gt, &txs).await;
-        assert_eq!(sr.add, Some(AddClass::OnChain), "scripted prefix block {} not accepted", i + 2);
+        let (co, sr) = sim.honest_step(ts, gt, &txs).await;
+        let alive = c02_oracle(&mut sim, &sr, case, summary, desc, None);
+        if co != CreateOutcome::Ok || sr.add != Some(AddClass::OnChain) || !alive {
+            if sr.add != Some(AddClass::Panicked) {
+                summary.oracle_failure(case, &format!("honest block {} of the scripted prefix was not accepted: create {:?}, add {:?}", i + 2, co, sr.add), desc);
+            }
+            sim.dead = true;
+            break;
+        }
     }
     sim
 }
@@ -290,7 +297,10 @@ async fn scripted(name: &str, case: usize, summary: &mut Summary) -> (Sim, Strin
     match name {
         // a block with a golden ticket whose fee transaction is left out
         "fee-tx-omitted" => {
-            sim = scripted_prefix(3, 8, ISS, 4, 7).await;
+            sim = scripted_prefix_raw(3, 8, ISS, 4, 7, case, summary, &desc).await;
+            if sim.dead {
+                return (sim, desc);
+            }
             let ts = sim.tip().timestamp + 2 * HEARTBEAT + 1000;
             let parent = sim.tip().clone();
             let gt = gt_tx_for(&sim.node, &parent, sim.keys[1].0, 5).await;
@@ -306,7 +316,10 @@ async fn scripted(name: &str, case: usize, summary: &mut Summary) -> (Sim, Strin
         }
         // an NFT (Bound) transaction that pays a fee
         "bound-tx-fee" => {
-            sim = scripted_prefix(3, 8, ISS, 2, 7).await;
+            sim = scripted_prefix_raw(3, 8, ISS, 2, 7, case, summary, &desc).await;
+            if sim.dead {
+                return (sim, desc);
+            }
             let ts = sim.tip().timestamp + 2 * HEARTBEAT + 1000;
             let s = sim.spendable().into_iter().find(|s| s.public_key == sim.keys[1].0 && s.amount == 333_000).unwrap();
             let tx = nft_create(&sim, &s, 300_000, 30_000, ts); // fee 3000
@@ -316,7 +329,10 @@ async fn scripted(name: &str, case: usize, summary: &mut Summary) -> (Sim, Strin
         // a BlockStake-typed transaction without inputs creating outputs: must be rejected
         // (accepted before fix 4119a69; with 2 x 2^63 the release build minted 2^64 unnoticed)
         "blockstake-mint" | "blockstake-mint-2-64" => {
-            sim = scripted_prefix(3, 8, ISS, 2, 7).await;
+            sim = scripted_prefix_raw(3, 8, ISS, 2, 7, case, summary, &desc).await;
+            if sim.dead {
+                return (sim, desc);
+            }
             let ts = sim.tip().timestamp + 2 * HEARTBEAT + 1000;
             let outs = if name == "blockstake-mint" {
                 vec![slip_out(sim.keys[2].0, 1_000_000, SlipType::Normal)]
@@ -334,7 +350,10 @@ async fn scripted(name: &str, case: usize, summary: &mut Summary) -> (Sim, Strin
         }
         // a properly signed BlockStake-typed transaction that pays a fee
         "blockstake-tx-fee" => {
-            sim = scripted_prefix(3, 8, ISS, 2, 7).await;
+            sim = scripted_prefix_raw(3, 8, ISS, 2, 7, case, summary, &desc).await;
+            if sim.dead {
+                return (sim, desc);
+            }
             let ts = sim.tip().timestamp + 2 * HEARTBEAT + 1000;
             let s = sim.spendable().into_iter().find(|s| s.public_key == sim.keys[1].0 && s.amount == 333_000).unwrap();
             let tx = raw_tx(
@@ -349,7 +368,10 @@ async fn scripted(name: &str, case: usize, summary: &mut Summary) -> (Sim, Strin
         }
         // a golden ticket naming the all-zero key
         "zero-key-golden-ticket" => {
-            sim = scripted_prefix(3, 8, ISS, 3, 7).await;
+            sim = scripted_prefix_raw(3, 8, ISS, 3, 7, case, summary, &desc).await;
+            if sim.dead {
+                return (sim, desc);
+            }
             let ts = sim.tip().timestamp + 2 * HEARTBEAT + 1000;
             let parent = sim.tip().clone();
             let gt = gt_tx_for(&sim.node, &parent, [0u8; 33], 11).await;
@@ -360,7 +382,10 @@ async fn scripted(name: &str, case: usize, summary: &mut Summary) -> (Sim, Strin
         }
         // an NFT group leaving the window while the rebroadcast fee is positive
         "nft-rebroadcast" => {
-            sim = scripted_prefix(3, 8, ISS, 1, 7).await;
+            sim = scripted_prefix_raw(3, 8, ISS, 1, 7, case, summary, &desc).await;
+            if sim.dead {
+                return (sim, desc);
+            }
             let ts = sim.tip().timestamp + 2 * HEARTBEAT + 1000;
             let s = sim.spendable().into_iter().find(|s| s.public_key == sim.keys[1].0 && s.amount == 333_000).unwrap();
             let tx = nft_create(&sim, &s, 300_000, 33_000, ts); // no fee
@@ -376,7 +401,10 @@ async fn scripted(name: &str, case: usize, summary: &mut Summary) -> (Sim, Strin
         }
         // an output whose value was collected as fees (too small to rebroadcast) is spent afterwards
         "collected-output-spent" => {
-            sim = scripted_prefix(3, 8, ISS, 5, 7).await;
+            sim = scripted_prefix_raw(3, 8, ISS, 5, 7, case, summary, &desc).await;
+            if sim.dead {
+                return (sim, desc);
+            }
             // block 5 collected the 700 and the 5 of the genesis block; their entries are still there
             let ts = sim.tip().timestamp + 2 * HEARTBEAT + 1000;
             let stale: Vec<_> = stale_entries(&sim.node).into_iter().filter(|s| s.amount == 700).collect();
@@ -470,7 +498,15 @@ async fn main() {
         "collected-output-spent",
     ] {
         let case = cases.len();
-        let (sim, desc) = scripted(name, case, &mut summary).await;
+        let r = verif_harness::chainsim::futures_catch(std::panic::AssertUnwindSafe(scripted(name, case, &mut summary))).await;
+        let (sim, desc) = match r {
+            Ok(x) => x,
+            Err(msg) => {
+                let desc = format!("{{\"case\":{},\"kind\":\"scripted\",\"scenario\":\"{}\"}}", case, name);
+                summary.oracle_failure(case, &format!("scenario {} could not be carried out on this tree: {}", name, msg), &desc);
+                (Sim::new(3, 8, 2, &[(0, 1000)], 1).await, desc)
+            }
+        };
         coq_cases.push(sim.history_literal());
         cases.push(Case { desc, nontrivial_key: format!("scripted:{}", name) });
     }
